@@ -23,6 +23,11 @@ func runC03(w *World) {
 	// before closing was sent while the session was Established and must still be
 	// delivered, in order, before the session ends
 	finBehind := variant != 2 && w.Chance(1, 4, "fin-behind")
+	// ... or send a Cease NOTIFICATION right behind its last UPDATE: same demand
+	notifBehind := variant != 2 && !finBehind && w.Chance(1, 6, "notif-behind")
+	// the remote may pipeline its handshake KEEPALIVE and the UPDATEs in one
+	// stream: the first UPDATE must wait for OnEstablished to return
+	pipelineEst := w.Chance(1, 4, "pipeline-establish")
 	nmsg := w.Range(1, 12, "nmsg")
 	if w.Chance(1, 6, "many") {
 		nmsg = w.Range(13, 60, "nmsgmany")
@@ -37,7 +42,7 @@ func runC03(w *World) {
 		wantNotif = &corebgp.Notification{Code: 3, Subcode: byte(w.Draw(12, "nsub")), Data: w.RandBytes(w.Draw(20, "ndl"), "nd")}
 	}
 	w.NoStall = variant != 4
-	s := NewStd1(w, Std1Opts{Dir: dir, Passive: dir == DirIn && w.Draw(2, "passive") == 1, LocalHold: hold, RemoteHold: 90,
+	s := NewStd1(w, Std1Opts{Dir: dir, Passive: dir == DirIn && w.Draw(2, "passive") == 1, LocalHold: hold, RemoteHold: 90, Vary: true,
 		Configure: func(p *PeerH) {
 			p.Plug.Oracle = true
 			p.Plug.UpdFn = func(pl *Plug, ss *Session, idx int, b []byte) *corebgp.Notification {
@@ -72,7 +77,11 @@ func runC03(w *World) {
 		w.HarnessError("C03: no connection")
 		return
 	}
-	if _, err := s.E.Advance(p, c, StEstablished, time.Minute); err != nil {
+	target := StEstablished
+	if pipelineEst {
+		target = StOpenConfirm
+	}
+	if _, err := s.E.Advance(p, c, target, time.Minute); err != nil {
 		w.Probe("setup-failed")
 		s.E.FinishRun()
 		return
@@ -103,6 +112,15 @@ func runC03(w *World) {
 		sent = append(sent, []byte{1, 2, 3, 4})
 		lens = append(lens, 4)
 		stream = append(stream, MkFrame(MsgUpdate, sent[0])...)
+	}
+	if pipelineEst {
+		stream = append(KeepaliveFrame(), stream...)
+		lens = append([]int{-1}, lens...)
+		w.Probe("handshake-keepalive-pipelined-with-updates")
+	}
+	if notifBehind {
+		stream = append(stream, MkNotif(6, 2, nil)...)
+		w.Probe("cease-right-behind-last-message")
 	}
 	w.NonTrivial = true
 	before := c.NFrames()
@@ -166,8 +184,12 @@ func runC03(w *World) {
 		}
 	}
 	sessionUp := p.Plug.IsUp() && !c.LocalClosed()
-	if finBehind && len(got) != len(want) {
-		w.Violate("C03/delivery/lost-before-close", "the remote sent %d UPDATEs and then closed the connection; only %d were delivered before the session ended", len(want), len(got))
+	if pipelineEst && p.Plug.NEst == 0 {
+		w.Violate("C03/pipelined-handshake/not-established", "the remote sent its handshake KEEPALIVE and %d UPDATEs in one stream; the session was never reported Established", len(sent))
+		return
+	}
+	if (finBehind || notifBehind) && len(got) != len(want) {
+		w.Violate("C03/delivery/lost-before-close", "the remote sent %d UPDATEs and then closed the connection (FIN=%v, Cease=%v); only %d were delivered before the session ended", len(want), finBehind, notifBehind, len(got))
 		return
 	}
 	if variant != 2 || notifAt >= len(sent) {
@@ -175,7 +197,7 @@ func runC03(w *World) {
 			w.Violate("C03/delivery/lost", "session still up and quiescent but only %d of %d UPDATEs were delivered", len(got), len(want))
 			return
 		}
-		if !sessionUp && !finBehind {
+		if !sessionUp && !finBehind && !notifBehind {
 			w.Probe("session-ended-early")
 		}
 	} else {
